@@ -1,5 +1,6 @@
 import Goyang.Lemmas.Fuel
 import Goyang.Lemmas.FuelCycle
+import Goyang.Lemmas.FuelProcess
 import Goyang.Props.C02
 import Goyang.Props.C09
 import Goyang.Props.C11
@@ -246,6 +247,14 @@ theorem augmentLoop_model_fuel (reg : Registry) (mods : Array Nat) (s : PState)
       augmentLoop reg (pendingTotal s + 1) mods s :=
   Goyang.Lemmas.Fuel.augmentLoop_model_fuel reg mods s hnd
 
+/-- The hypothesis of `augmentLoop_terminates` holds of the state `processAll` starts the loop
+from — one pending list per distinct module, then per distinct submodule, keyed by sequence number
+— for every registry of the shape loading produces (`LoadedShape`: sequence numbers distinct, no
+module bound in both tables), whatever the pending lists hold. -/
+theorem processAll_pending_keys_distinct (reg : Registry) (h : LoadedShape reg) (augsOf : Mod → List Entry) :
+    (((reg.distinctModules ++ reg.distinctSubs).map fun m => (m.seq, augsOf m)).map (·.1)).Nodup :=
+  processAll_pending_keys_nodup reg h augsOf
+
 /-- Every pass accounts for what it applied: pending after + applied = pending before. -/
 theorem augmentPass_accounts (reg : Registry) (fuel : Nat) (mods : Array Nat) (i processed : Nat) (s : PState)
     (hnd : (s.pending.map (·.1)).Nodup) :
@@ -320,6 +329,11 @@ def impSelf : Stmt := .mk "module" true "a" "a.yang" 1 1 [.mk "import" true "a" 
 def impBack : Stmt := .mk "module" true "b" "b.yang" 1 1 [.mk "import" true "a" "b.yang" 2 3 []]
 def reg3 : Registry := { mods := [⟨0, impSelf⟩, ⟨1, impBack⟩], modules := [("a", 0), ("b", 1)] }
 example : linkAll reg3 = ([1, 0], []) := by decide
+
+/-- `LoadedShape` holds of a registry with two modules and a submodule. -/
+example : LoadedShape { mods := [⟨0, impSelf⟩, ⟨1, impBack⟩, ⟨2, .mk "submodule" true "s" "s.yang" 1 1 []⟩],
+                        modules := [("a", 0), ("b", 1)], subModules := [("s", 2)] } :=
+  ⟨by decide, by decide⟩
 
 /-- The `Nodup` hypothesis of `augmentLoop_terminates` is satisfiable on a non-empty state. -/
 example : ∃ s : PState, s.pending ≠ [] ∧ (s.pending.map (·.1)).Nodup ∧ pendingTotal s = 1 :=
